@@ -10,7 +10,7 @@ SERVES = {
     "C04": dict(
         technique="TLA+ spec JumpDest.tla model-checked by TLC; every code enumerated by the model is analysed by revm (to_analysed / JumpTable::is_valid, eagerly and through Contract::new) and probe programs jumping to every target are executed on the real interpreter and through whole Evm transactions, compared with the spec's valid-destination sets (spec->impl conformance)",
         level="TLC enumerates every byte string up to the length bound over {JUMPDEST, PUSH1, PUSH2, PUSH32, PUSH0, STOP, DUP1} (so every truncated trailing PUSH and every JUMPDEST hidden in push data of these shapes), plus random codes of up to 40 bytes using all of PUSH1..PUSH32, checks the definition's own lemmas as invariants (wording of the property = instruction scan = declarative fixpoint; immediates never valid; prefix stability; zero padding adds nothing; header/data independence of the probe programs; JUMP/JUMPI step semantics) and prints for each code the valid destinations of the bare code and of the probe programs. For each code the harness compares JumpTable::is_valid / Contract::is_valid_jump at every offset 0..len+34 and far beyond (eager analysis, lazy analysis in Contract::new, re-analysis, raw-slice round trip), and executes PUSH32 t JUMP / PUSH32 c PUSH32 t JUMPI (c in {0, 1, 2^64, 2^255}) in front of the code for every target t in 0..len+34, large powers of two and 2^k + (offset of each 0x5b byte), observing the instruction result, pc, stack height and next instruction right after the jump step; the same through Evm transactions (call to raw code, call to analysed code, create). Any change of the analysis or of the jump check that alters the accepted set for one of these codes/targets is detected.",
-        note="Trusted: JumpDest.tla as the statement of the property; the adapter harness/src/bin/jumpdest.rs (it classifies each run as jumped / InvalidJump / fell-through / other from the recorded step, no validity computation). The per-target verdict is the spec's JumpOk applied to the printed data: 't is accepted iff t is a member of the printed ValidDests', computed as set membership/counting in Python (targets above the code length are rejected by JumpOk's first conjunct). Targets are a finite palette, not all 2^256 values; codes longer than the bound are sampled, bytes outside the alphabet (other than PUSH3..PUSH31, JUMP, JUMPI, 0xff in the random part) are not used as they are all one-byte instructions for the analysis.",
+        note="Trusted: JumpDest.tla as the statement of the property; the adapter harness/src/bin/jumpdest.rs (it classifies each run as jumped / InvalidJump / fell-through / other from the recorded step, no validity computation). The per-target verdict is the spec's JumpOk applied to the printed data: 't is accepted iff t is a member of the printed ValidDests', computed as set membership/counting in Python (targets above the code length are rejected by JumpOk's first conjunct). Targets are a finite palette, not all 2^256 values; codes longer than the bound are sampled; every one of the 256 byte values is used (alone, as PUSH1 data and after a JUMPDEST) in front of every short string over JUMPDEST/PUSH1, and the random walks draw from all 256 values.",
         ref="DESIGN.md section 3, C04"),
 }
 
@@ -22,7 +22,7 @@ PROPS = ["ExtensionKeepsStatus"]
 
 ALPHABET = [0x5b, 0x60, 0x61, 0x7f, 0x5f, 0x00, 0x80]
 # classes of the random walk: JUMPDEST frequent, short pushes, long pushes, PUSH32, the rest
-WEIGHTED = "<<{91}, {91}, {91}, {96}, {96, 97, 98, 99}, 100..126, {127}, {95, 0, 128, 86, 87, 255}>>"
+WEIGHTED = "<<{91}, {91}, {91}, {96}, {96, 97, 98, 99}, 100..126, {127}, {95, 0, 128, 86, 87, 255}, (0..95) \\cup (128..255)>>"
 
 H = lambda x: "0x%x" % x
 BIGS = [H(v) for v in (2**16, 2**31, 2**32 - 1, 2**32, 2**63, 2**64 - 1, 2**64, 2**128, 2**255, 2**256 - 1)]
@@ -114,16 +114,28 @@ def run(ctx, pid):
     n = 5 if ctx.quick else 6
     procs, walks = (2, 25) if ctx.quick else (4, 375)     # random walks: processes x walks each
     binary = vf.cargo_build("jumpdest")
-    consts = dict(Alphabet=vf.tla_set(ALPHABET), MaxLen=n, Weighted=WEIGHTED)
+    consts = dict(Alphabet=vf.tla_set(ALPHABET), Heads="{<<>>}", MaxLen=n, Weighted=WEIGHTED)
     ex = vf.tlc(ctx, "JumpDest", vf.cfg(consts, view=None, invariants=INV, properties=PROPS),
                 name="jumpdest_all", workers=4, timeout=1500, xss="64m", xmx="4g", env=GC)
     if ex.distinct != sum(len(ALPHABET) ** k for k in range(n + 1)):
         raise vf.ToolError("TLC enumerated %d codes, expected all of length <= %d" % (ex.distinct, n))
     replay(ctx, res, [ex], "jumpdest_all", binary, evm_every=2 if ctx.quick else 4)
+    # every one of the 256 byte values (alone, as PUSH1 data, after a JUMPDEST) followed by every short string over
+    # {JUMPDEST, PUSH1[, STOP]}: no byte other than PUSH1..PUSH32 may hide or expose what follows it
+    consts = dict(Alphabet="{91, 96}" if ctx.quick else "{91, 96, 0}", MaxLen=4 if ctx.quick else 5, Weighted=WEIGHTED,
+                  Heads="{p \\o <<b>> : p \\in {<<>>, <<96>>, <<91>>}, b \\in 0..255}")
+    eb = vf.tlc(ctx, "JumpDest", vf.cfg(consts, view=None, invariants=INV, properties=PROPS),
+                name="jumpdest_bytes", workers=4, timeout=1500, xss="64m", xmx="4g", env=GC)
+    k, m = (2, 4) if ctx.quick else (3, 5)
+    # (codes reachable from a one-byte head and from a two-byte head are counted once)
+    want = 256 * sum(k ** i for i in range(m)) + 512 * sum(k ** i for i in range(m - 1)) - 2 * k * sum(k ** i for i in range(m - 1))
+    if eb.distinct != want:
+        raise vf.ToolError("TLC enumerated %d byte-context codes, expected %d" % (eb.distinct, want))
+    replay(ctx, res, [eb], "jumpdest_bytes", binary, evm_every=4)
 
     # TLC's RandomElement stream is the same in every worker of one process, so the walks are spread
     # over single-worker processes with different seeds instead.
-    consts = dict(Alphabet="{}", MaxLen=40, Weighted=WEIGHTED)
+    consts = dict(Alphabet="{}", Heads="{<<>>}", MaxLen=40, Weighted=WEIGHTED)
     spec = vf.cfg(consts, next="NextRandom", view=None, invariants=INV, properties=PROPS)
 
     def sim(i):
